@@ -241,6 +241,11 @@ fn check_release(fair: bool, st: [u8; N], queue: &[usize]) {
     assert!(w.sem.permits() == w.sh.permits + n, "[C05] release(n) adds exactly n permits");
     assert!(wake_rule(&w.sh, &w.futs, N), "[C06] every request notified by a release is woken exactly once through its latest waker; nobody else is woken");
     assert!(queue_ok(fair, &w.futs, &w.sem.state.lock()), "[C01] queue consistent after release");
+    let mut j = 0;
+    while j < N {
+        assert!(w.futs[j].is_terminated() == (st[j] == 3), "[C17] release() terminates no future: a notified acquire future is not terminated until its poll returned Ready");
+        j += 1;
+    }
 }
 
 fn check_releaser(fair: bool, st: [u8; N], queue: &[usize]) {
@@ -287,9 +292,14 @@ fn check_try_acquire(fair: bool, st: [u8; N], queue: &[usize]) {
 
 #[kani::proof]
 fn fresh_future_is_not_terminated() {
-    let sem = Sem::new(kani::any(), kani::any());
-    let f = sem.acquire(kani::any());
+    let p0: usize = kani::any();
+    let sem = Sem::new(kani::any(), p0);
+    assert!(sem.permits() == p0, "[C05] permits() starts at the initial count");
+    let n: usize = kani::any();
+    let f = sem.acquire(n);
     assert!(!f.is_terminated(), "[C17] is_terminated() is false from creation");
+    assert!(f.wait_node.state == PollState::New && f.wait_node.task.is_none() && f.wait_node.required_permits == n && f.auto_release, "[C05] [C06] a new acquire future asks for exactly n permits, releases them automatically, and has not started waiting");
+    assert!(sem.permits() == p0 && sem.state.lock().waiters.is_empty(), "[C05] [C01] creating a future takes no permits and does not touch the queue");
 }
 
 macro_rules! inst {
